@@ -20,7 +20,7 @@ def paired_period(chk, data, max_hist):
     fails = {}
     compared = 0
     for k, lst in by.items():
-        exact = hists[k]["tracker"] == "sort"
+        exact = tc.exact_ids(hists[k])
         base = None
         for p, v, r in lst:
             if r is None or not tc.tie_free(v, r):
@@ -72,12 +72,13 @@ def run(chk):
             ra, rb = tc.run_impl([a, b])
             if ra is None or rb is None or not tc.tie_free(a, ra) or not tc.tie_free(b, rb):
                 return False
-            ex = hh["tracker"] == "sort"
+            ex = tc.exact_ids(hh)
             return tc.observable(a, ra, ex) != tc.observable(b, rb, ex)
         small = tc.shrink_history(h, f) if f(h) else h
         chk.violation("C03:" + key, msg, tc.replay_obj(small, msg, {"pair": {"kind": "period", "p1": p1, "p2": p2},
                                                                     "original_history": h["k"], "seed": chk.seed}))
         found = True
+    found = tc.visual_report(chk, "C03", data, found)
     tc.report_correspondence(chk, "C03", data, found)
 
 
